@@ -212,7 +212,9 @@ func (vm *Vm) runErrCheck(ctx context.Context, b []byte, err error) ([]byte, err
 	}
 	vm.pg = vm.pg.WithError(err)
 
-	v := vm.st.MatchFlag(state.FLAG_LOADFAIL, true)
+	// the flag lives until the instruction after the failed load (doc/texinfo/signals.texi): left
+	// set, it would turn every later error of the session into a page of the catch node
+	v := vm.st.ResetFlag(state.FLAG_LOADFAIL)
 	if !v {
 		return b, err
 	}
